@@ -54,6 +54,17 @@ def build():
         e1(fn, GETP)
     e1("binson_parser_get_depth", {"C01": "*", "C06": "*", "C12": "*", "C18": "*"})
 
+    # ---- writer
+    WP = {"C04": "*", "C05": "*", "C09": "*", "C10": "*", "C18": "*", "C16": "*"}
+    e1("_write", WP, harness=HW)
+    e1("_int_pack_size", {"C05": "*", "C10": "*", "C18": "*", "C04": "*", "C16": "*"}, harness=HW, unwind=9,
+       note="pack loop <= 8 iterations by type: --unwind 9 with unwinding assertions is complete")
+
+    e1("_write_token", WP, harness=HW, replace=["_write", "_int_pack_size"], timeout=900)
+    for fn in ("binson_write_object_begin", "binson_write_object_end", "binson_write_array_begin",
+               "binson_write_array_end", "binson_write_boolean"):
+        e1(fn, WP, harness=HW, replace=["_write_token"])
+
     # ---- E2: _advance_parsing, loop closed by the in-source loop contract, max_depth enumerated
     ADV_PROPS = {"C01": "*", "C06": "*", "C07": "*", "C08": "*", "C09": "*", "C12": "*", "C16": "*", "C18": "*", "C02": "*"}
     for md, tmo, tier in ((1, 3600, "thorough"), (2, 7200, "thorough"), (3, 5400, "thorough"), (4, 14400, "thorough")):
